@@ -326,12 +326,12 @@ LATE = {
     "C01": " Queries include pairs of staggered, overlapping exclusion periods (FindCases!XStaggered); every filtered find is "
            "repeated with the same filter dictionary object; a copy narrowed to another tag must not move the original's answers.",
     "C02": " A fifth spelling repeats every date field in cumulative directory levels; a user placeholder occurs twice; a "
-           "time_coverage next to end fields must not replace the end the name gives.",
+           "time_coverage next to end fields must not replace the end the name gives. Every third replay runs on a fileset object that was built with another template and given this one later (fs.path = ...).",
     "C03": " IntervalCases!ReplicationLaw (S stored k times over answers with shifted copies) is model-checked and replayed with "
            "int8 ... float32 arrays that hold more rows than their dtype can count; match() also with fractional max_interval.",
     "C04": " max_interval in 11 spellings incl. numpy scalars and zero; time bins that do not begin with a point; narrow bins "
-           "(bin_factor < 1) with pairs further apart than one bin.",
-    "C05": " Every yielded dataset must announce, and every written file be named by, the time span of the primary points it holds.",
+           "(bin_factor < 1) with pairs further apart than one bin. Sub-second time stamps: one side shifted by half a second, max_interval in the gap (I ticks + 3/4 s), the strict pair law on exact rational times.",
+    "C05": " Every yielded dataset must announce, and every written file be named by, the time span of the primary points it holds. A layout with day sub-directories, start-only names and a fixed time_coverage (files reach across midnight).",
     "C10": " align(): nested primaries (a secondary shared by primaries that are not neighbours); a read error inside a bundle; failing readers whose error is a TypeError are still called exactly once.",
     "C11": " A user-defined placeholder regex with a foreign file in the fileset's directories that no operation may touch; falsy "
            "contents; whole-fileset read-back through collect(); post_reader on compressed files. Time stamps finer than the file names (minute, second, millisecond templates): each content lands in, and is found in, the name-resolution bin containing its stamp.",
